@@ -238,6 +238,21 @@ def c06(tier, seed):
     ]
 
 
+def c11(tier, seed):
+    q = tier == "quick"
+    vc = varexp_consts("quick")
+    return [
+        MC("UcfgReaders", dict(Readers={"r1", "r2", "r3"}, Dev="<-NoDev"), invariants=["SharedUnchanged", "ResultIsSequential"],
+           spec="Spec", label="MC_Readers/ideal"),
+        MC("UcfgReaders", dict(Readers={"r1", "r2"}, Dev="<-MemoDev"), invariants=["ResultIsSequential"], spec="Spec",
+           expect_violation=True, label="MC_Readers/refute-MemoOnValue"),
+        GEN("Gen_VarExp", vc, "readers", gen_family="varexp", replay_args=["--goroutines", "8" if q else "32"],
+            label="Gen_VarExp/pure-and-concurrent-reads", min_cases=10000),
+        GEN("Gen_VarExp", vc, "readers", gen_family="varexp", replay_args=["--goroutines", "8", "--every", "8" if q else "1"],
+            race=True, label="Gen_VarExp/race-detector", min_cases=1000, timeout=3600),
+    ]
+
+
 ASSUME_COMMON = [
     "the public-API observation (Unpack into map and slice, canonicalised) reads the abstract state faithfully",
     "TLC, the JVM, the Go toolchain and runtime",
@@ -271,6 +286,15 @@ REIFY_RULE = ("Gen_Reify: target struct{G int; F T (validate:v); H int} built wi
               "non-trivial: every case; distinct by (type, validator, pre-fill, config)")
 
 CHECKS = {
+    "C11": dict(stages=c11, family="readers",
+                rule="the worlds of Gen_VarExp (references, repeated references, splices, defaults, Env configs, resolvers); per world: nine read "
+                     "operations (String x5, Unpack into map, Unpack into a struct capturing a *Config, Has/CountField/Child/GetFields/Path, use "
+                     "as merge source, typed getters) each followed by a name-free reflective deep hash of everything reachable from the config; "
+                     "re-reads under a different resolver; 8-32 goroutines x 3 rounds of all reads on a FRESH shared config compared with the "
+                     "sequential answers and with UcfgVarExp's expectation; the same under the Go race detector. "
+                     "non-trivial: every world; distinct by world",
+                assumptions=ASSUME_COMMON + ["absence of data races is observed by Go's race detector on the executed interleavings, not derived",
+                                             "the deep hash reads unexported state through reflect+unsafe and numbers pointers in traversal order"]),
     "C04": dict(stages=c04, family="reify", rule=REIFY_RULE, assumptions=ASSUME_COMMON),
     "C13": dict(stages=c13, family="reify", rule=REIFY_RULE, assumptions=ASSUME_COMMON),
     "C14": dict(stages=c14, family="reify", rule=REIFY_RULE, assumptions=ASSUME_COMMON),
